@@ -9,21 +9,23 @@
 // fires while other threads are still runnable.
 //
 // Oracles at the terminal state of EVERY explored execution:
-//   liveness   both loops are parked, nothing is pending (put / release wake-ups not armed), every
-//              acknowledged upload that the live store still holds is served by a store restarted
-//              from the media, and released blocks are allocatable again (exact free-region count)
-//   latency    the first state file that covers an upload was written no later than
-//              ack + minimum epoch interval + injected failures x retry interval (virtual time)
-//   release    after a block release the allocator gets the region back without any timer having
-//              to fire (fault-free executions), and within failures x retry otherwise
-//   rate       two data syncs that are neither retries nor the shutdown pair start >= 10 s apart
-//   retry      after an injected failure the same operation is re-invoked one retry interval later
-//   engine     no panic (double close of a wake-up channel), no deadlock, no livelock
+//
+//	liveness   both loops are parked, nothing is pending (put / release wake-ups not armed), every
+//	           acknowledged upload that the live store still holds is served by a store restarted
+//	           from the media, and released blocks are allocatable again (exact free-region count)
+//	latency    the first state file that covers an upload was written no later than
+//	           ack + minimum epoch interval + injected failures x retry interval (virtual time)
+//	release    after a block release the allocator gets the region back without any timer having
+//	           to fire (fault-free executions), and within failures x retry otherwise
+//	rate       two data syncs that are neither retries nor the shutdown pair start >= 10 s apart
+//	retry      after an injected failure the same operation is re-invoked one retry interval later
+//	engine     no panic (double close of a wake-up channel), no deadlock, no livelock
 package main
 
 import (
 	"context"
 	"fmt"
+	"strings"
 	"time"
 
 	"github.com/buildbarn/bb-storage/pkg/verifshim/vsched"
@@ -41,13 +43,14 @@ const minEpoch = 10 * time.Second
 func failf(sig, format string, a ...any) { vsched.Fail(sig, format, a...) }
 
 type scenario struct {
-	name        string
-	uploads     [][]string // per uploader thread: object names
-	shutdown    bool
-	syncFaults  int
-	dirFaults   int
-	early       bool
-	spare       int
+	name       string
+	uploads    [][]string // per uploader thread: object names
+	shutdown   bool
+	syncFaults int
+	dirFaults  int
+	early      bool
+	spare      int
+	dataGates  bool
 }
 
 var contents = map[string]string{
@@ -57,7 +60,7 @@ var contents = map[string]string{
 func body(sc scenario) func() {
 	return func() {
 		g := lstore.Geometry{SectorSize: 4, SectorsPerBlock: 2, Old: 1, Current: 1, New: 1, Spare: sc.spare, Persistent: true,
-			IndexSlots: 127, GetAttempts: 16, PutAttempts: 64, MinEpochInterval: minEpoch, ErrorRetry: 3 * time.Second, IndexOnDevice: true}
+			IndexSlots: 127, GetAttempts: 16, PutAttempts: 64, MinEpochInterval: minEpoch, ErrorRetry: 3 * time.Second, IndexOnDevice: true, DataGates: sc.dataGates}
 		med := lstore.NewMedia(g)
 		ctx, cancel := context.WithCancel(context.Background())
 		defer cancel()
@@ -68,6 +71,7 @@ func body(sc scenario) func() {
 		med.Data.SyncFaults = sc.syncFaults
 		med.Dir.Faults = sc.dirFaults
 		var acks []lstore.Ack
+		var ackJournal []int // length of the I/O journal when the upload was acknowledged
 		var wg vsync.WaitGroup
 		shutdownRequested := false
 		var lastUpload time.Time
@@ -77,6 +81,23 @@ func body(sc scenario) func() {
 			vsched.GoNamed(fmt.Sprintf("uploader%d", ti), false, func() {
 				defer wg.Done()
 				for _, n := range names {
+					if n == "@sync" {
+						// wait until a data sync has been issued and not yet returned (the device's sync is a gate)
+						before := med.Data.Syncs
+						vsched.Block("await-sync-in-flight", false, func() bool { return med.Data.Syncs > before })
+						continue
+					}
+					if strings.HasSuffix(n, "!") {
+						// a client that disconnects after half of the data: the upload fails, nothing is acknowledged
+						o := lstore.CASObj(n, "", []byte(contents[n[:2]]))
+						err, _ := s.Put(o.Digest, lstore.PutSpec{Chunks: [][]byte{o.Content[:len(o.Content)/2]}, FinalErr: status.Error(codes.Aborted, "client went away")})
+						vsched.Obs("Put %s=%s", n, status.Code(err))
+						if err == nil {
+							failf("failed-upload-acknowledged", "Put(%s) whose source failed was acknowledged", n)
+						}
+						lastUpload = vsched.Now()
+						continue
+					}
 					o := lstore.CASObj(n, "", []byte(contents[n]))
 					exitedBefore := putLoopExited
 					err := s.PutOK(o.Digest, o.Content)
@@ -86,6 +107,7 @@ func body(sc scenario) func() {
 							failf("ack-after-final-sync", "Put(%s) was acknowledged although the final synchronisation had already completed", n)
 						}
 						acks = append(acks, lstore.Ack{Obj: o, At: vsched.Now(), Seq: len(acks)})
+						ackJournal = append(ackJournal, len(med.Journal))
 					} else if c := status.Code(err); c != codes.Unavailable {
 						failf("upload-error-"+c.String(), "Put(%s) failed with %v", n, err)
 					} else if !shutdownRequested && sc.spare > 0 && sc.syncFaults == 0 && sc.dirFaults == 0 {
@@ -146,6 +168,45 @@ func body(sc scenario) func() {
 				failf("acknowledged-upload-not-committed", "upload %s was acknowledged at %v and is still held by the live store, but a store restarted from the media after quiescence does not serve it (%v)", a.Obj.Name, a.At.Sub(time.Unix(1_000_000_000, 0)), err)
 			}
 			vsched.Mark()
+		}
+
+		// ---- every acknowledged upload still held got a data sync issued after its data, then a state write ----
+		for i, a := range acks {
+			if !s.Held(a.Obj.Digest) {
+				continue
+			}
+			j := med.Journal[:ackJournal[i]]
+			lastW := -1
+			for k, e := range j {
+				if e.Dev == 'D' && med.Data.Log[e.Idx].Kind == 'W' {
+					lastW = k
+				}
+			}
+			synced, committed := -1, false
+			for k := lastW + 1; k < len(med.Journal); k++ {
+				e := med.Journal[k]
+				if e.Dev == 'D' && synced < 0 && med.Data.Log[e.Idx].Kind == 'S' {
+					// the matching completion is the next 's' / 'f' entry of the device
+					for m := k + 1; m < len(med.Journal); m++ {
+						if f := med.Journal[m]; f.Dev == 'D' && (med.Data.Log[f.Idx].Kind == 's' || med.Data.Log[f.Idx].Kind == 'f') {
+							if med.Data.Log[f.Idx].Kind == 's' {
+								synced = m
+							}
+							break
+						}
+					}
+				}
+				if synced >= 0 && k > synced && e.Dev == 'F' && med.Dir.Log[e.Idx].Kind == "rename" {
+					committed = true
+					break
+				}
+			}
+			if synced < 0 {
+				failf("acknowledged-upload-never-synced", "upload %s was acknowledged and is still held, but no successful data synchronisation was started after its data had been written (%d data syncs in total)", a.Obj.Name, len(med.Data.SyncCalls))
+			}
+			if !committed {
+				failf("acknowledged-upload-sync-not-followed-by-state-write", "upload %s: the data synchronisation covering it was never followed by a state-file write", a.Obj.Name)
+			}
 		}
 
 		// ---- latency: first covering state file ----
@@ -223,7 +284,9 @@ func main() {
 		{name: "two-uploaders", uploads: [][]string{{"A3", "B5"}, {"D4"}}, spare: 1},
 		{name: "rotation", uploads: [][]string{{"C8", "F8", "G8", "H8"}}, spare: 1},
 		{name: "rotation-two-uploaders", uploads: [][]string{{"C8", "F8"}, {"G8", "H8"}}, spare: 1},
-		{name: "rotation-twice", uploads: [][]string{{"C8", "F8", "G8", "H8", "I8"}}, spare: 2}, // a second release while the state write for the first is in flight
+		{name: "rotation-twice", uploads: [][]string{{"C8", "F8", "G8", "H8", "I8"}}, spare: 2},                        // a second release while the state write for the first is in flight
+		{name: "upload-during-sync", uploads: [][]string{{"A3", "@sync", "D4"}}, spare: 1, dataGates: true},            // D4 lands in A3's block and is finalized while the sync covering A3 is in flight
+		{name: "rotation-failed-uploads", uploads: [][]string{{"C8", "F8!", "G8", "A3!", "H8", "I8", "C8"}}, spare: 4}, // aborted uploads into blocks that are later released
 		{name: "rotation-nospare", uploads: [][]string{{"C8", "F8", "G8", "H8", "I8"}}, spare: 0},
 		{name: "sync-failures", uploads: [][]string{{"A3", "C8"}}, spare: 1, syncFaults: 2},
 		{name: "state-failures", uploads: [][]string{{"A3", "C8"}}, spare: 1, dirFaults: 2},
